@@ -40,7 +40,7 @@ def half_step_rules(rng, spec, n):
 
 def model(rng, i):
     m = i % 8
-    prof = dict(p_continue=0.0, p_reset=0.0, n_lo=12, n_hi=60, p_overload=0.35, p_big_overload=0.15, max_stages=3)
+    prof = dict(p_continue=0.0, p_reset=0.0, n_lo=12, n_hi=60, p_overload=0.35, p_big_overload=0.15, max_stages=3, p_noload_start=0.0)
     force = True if m in (0, 1, 2) else None
     spec = GEN.gen_scenario(rng, prof, force_selflock=force)
     n = spec['_ref']['n']
@@ -86,6 +86,10 @@ def compare_traces(a, b_, rel=1e-9):
                 return {'what': 'series length', 'element': ea['name'], 'variable': v, 'a': len(sa), 'b': len(sb)}
             fin = [abs(x) for x in sa if math.isfinite(x)]
             sc = max(fin) if fin else 0.0
+            if 'torque' in v:
+                # the three torques of an element are differences / sums of one another: a series that is zero up to rounding
+                # (motor exactly at its no-load speed, balanced load) is judged on the scale of the element's torques
+                sc = max([sc] + [abs(x) for v2 in ('torque', 'driving torque', 'load torque') for x in ea['vars'].get(v2, ()) if math.isfinite(x)])
             for k, (x, y) in enumerate(zip(sa, sb)):
                 if x == y or (x != x and y != y):
                     continue
